@@ -241,6 +241,10 @@ func Gen(r *core.Rand, req bool, maxBody int) *Spec {
 		}
 		if r.Chance(3, 4) {
 			s.URL = "http://" + host + path + q
+			if r.Chance(1, 4) {
+				// userinfo in the request URL: user only, user:password, empty password, escapes
+				s.URL = "http://" + r.Pick("alice", "alice:s3cret", "alice:", "a%40b:p%3Aw%2F", ":pw", "u%20ser:p%25", "x:y:z"[:3]) + "@" + host + path + q
+			}
 			s.Host = host
 		} else {
 			s.URL = path + q
